@@ -442,7 +442,8 @@ theorem mono_storedInitial (i : Inp K) (d : K) (hd : 0 ≤ d) (hw0 : 0 ≤ i.wSt
     | objective => exact h.nonneg _
     | objectiveBest => exact h.nonneg _
   · -- the stored-food ledger
-    intro _ m hm
+    intro _ m hm'
+    have hm : m < i.nmonths := hm'
     have H := h.stored hon m hm
     unfold StoredSpec StoredEatenEq at H ⊢
     cases hs : i.storeBetweenYears
@@ -523,14 +524,158 @@ theorem mono_storedInitial (i : Inp K) (d : K) (hd : 0 ≤ d) (hw0 : 0 ≤ i.wSt
           + X x i.addSeaweed .swHumans m * i.seaweedKcals + at' i.milk m + X x i.addMeat .meatEaten m
           + X x i.addCs .csHumans m + X x i.addScp .scpHumans m + at' i.greenhouse m + at' i.fish m)
           / i.billionKcalsNeeded * 100.0
-      rw [H2]
-      unfold humanTotal X
-      rw [sci_100, hon]
+      have hX : X x i.addStored .sfHumans m = x (.mv .sfHumans m) := by
+        unfold X; rw [hon]; rfl
+      rw [H2, hon, sci_100]
+      unfold humanTotal
+      rw [hX]
       simp only [if_true]
-      split_ifs
-      · show _ + e / i.billionKcalsNeeded * 100 = _
+      by_cases hl : last m = true
+      · rw [hl]
+        show _ + e / i.billionKcalsNeeded * 100 = _
+        simp only [if_true]
         ring
-      · rfl
+      · rw [Bool.not_eq_true] at hl
+        rw [hl]
+        simp only [Bool.false_eq_true, if_false]
+    · exact intake_of_consumed_le H3 rfl rfl rfl rfl rfl rfl rfl rfl (hcons m) hlim.1 hb
+    · exact intake_of_consumed_le H4 rfl rfl rfl rfl rfl rfl rfl rfl (hcons m) hlim.2.1 hb
+    · exact intake_of_consumed_le H5 rfl rfl rfl rfl rfl rfl rfl rfl (hcons m) hlim.2.2 hb
+  · intro m hm
+    exact le_trans (h.objective m hm) (hcons m)
+
+/-! ### crop production -/
+
+/-- crop storage moved up by the running surplus `D` before the last month `l`; in month `l` the
+    whole surplus is eaten by people (`e` more to people, `g` more percent fed) -/
+def shiftCrops (x : Var → K) (D : Nat → K) (l : Nat) (e g : K) : Var → K
+  | .mv .cropStorage m => if m < l then x (.mv .cropStorage m) + D m else x (.mv .cropStorage m)
+  | .mv .cropConsumed m => if m = l then x (.mv .cropConsumed m) + D l else x (.mv .cropConsumed m)
+  | .mv .cropHumans m => if m = l then x (.mv .cropHumans m) + e else x (.mv .cropHumans m)
+  | .mv .consumedKcals m => if m = l then x (.mv .consumedKcals m) + g else x (.mv .consumedKcals m)
+  | v => x v
+
+theorem mono_cropProd (i : Inp K) (prod' : List K) (hp : SeriesLe i.cropProd prod')
+    (hw0 : 0 ≤ i.wCrop) (hw : i.wCrop < 100) (hN : 2 ≤ i.nmonths)
+    (hb : 0 ≤ i.billionKcalsNeeded) (hlim : 0 ≤ i.limSwH ∧ 0 ≤ i.limScpH ∧ 0 ≤ i.limCsH)
+    (x : Var → K) (h : Feasible (buildLP i .toHumans) x) :
+    ∃ x', Feasible (buildLP { i with cropProd := prod' } .toHumans) x' ∧
+      x .objective ≤ x' .objective := by
+  rw [feasible_toHumans_iff] at h
+  by_cases hon : i.addOutdoor = true
+  swap
+  · refine ⟨x, feasible_toHumans_iff.mpr ?_, le_rfl⟩
+    exact ⟨h.nonneg, h.seaweed, fun hon' => absurd hon' hon, h.stored, h.meat, h.scp, h.cs,
+      h.general, h.objective⟩
+  let δ : Nat → K := fun k => at' prod' k - at' i.cropProd k
+  have hδ : ∀ k, 0 ≤ δ k := fun k => sub_nonneg.mpr (hp k)
+  have hD : ∀ m, 0 ≤ cum δ m := fun m => cum_nonneg δ m (fun k _ => hδ k)
+  let e : K := cum δ (i.nmonths - 1) * keep i.wCrop
+  let g : K := e / i.billionKcalsNeeded * 100
+  have he : 0 ≤ e := mul_nonneg (hD _) (keep_pos hw).le
+  have hg : 0 ≤ g := mul_nonneg (div_nonneg he hb) (by norm_num)
+  have hcons : ∀ m, x (.mv .consumedKcals m)
+      ≤ shiftCrops x (cum δ) (i.nmonths - 1) e g (.mv .consumedKcals m) := by
+    intro m
+    show _ ≤ if m = i.nmonths - 1 then x (.mv .consumedKcals m) + g else x (.mv .consumedKcals m)
+    split_ifs
+    · exact le_add_of_nonneg_right hg
+    · exact le_rfl
+  refine ⟨shiftCrops x (cum δ) (i.nmonths - 1) e g, feasible_toHumans_iff.mpr ?_, le_rfl⟩
+  refine ⟨?_, h.seaweed, ?_, h.stored, h.meat, h.scp, h.cs, ?_, ?_⟩
+  · intro v
+    cases v with
+    | mv k m =>
+      cases k <;> first
+        | exact h.nonneg _
+        | (show 0 ≤ ite _ _ _
+           split_ifs <;> first
+             | exact h.nonneg _
+             | exact add_nonneg (h.nonneg _) (hD _)
+             | exact add_nonneg (h.nonneg _) (by assumption))
+    | objective => exact h.nonneg _
+    | objectiveBest => exact h.nonneg _
+  · -- the crop ledger
+    intro _ m hm'
+    have hm : m < i.nmonths := hm'
+    obtain ⟨H1, H2⟩ := h.crops hon m hm
+    show (if m = i.nmonths - 1 then x (.mv .cropConsumed m) + cum δ (i.nmonths - 1)
+          else x (.mv .cropConsumed m)) =
+        grossUp (if m = i.nmonths - 1 then x (.mv .cropHumans m) + e else x (.mv .cropHumans m))
+          i.wCrop + x (.mv .cropBiofuel m) + x (.mv .cropFeed m) ∧
+      (if m = 0 then
+        (if m < i.nmonths - 1 then x (.mv .cropStorage m) + cum δ m else x (.mv .cropStorage m)) =
+          at' prod' m - (if m = i.nmonths - 1 then x (.mv .cropConsumed m) + cum δ (i.nmonths - 1)
+            else x (.mv .cropConsumed m))
+       else if m = i.nmonths - 1 then
+        (if m < i.nmonths - 1 then x (.mv .cropStorage m) + cum δ m else x (.mv .cropStorage m)) =
+          at' prod' m +
+            (if m - 1 < i.nmonths - 1 then x (.mv .cropStorage (m - 1)) + cum δ (m - 1)
+              else x (.mv .cropStorage (m - 1)))
+            - (if m = i.nmonths - 1 then x (.mv .cropConsumed m) + cum δ (i.nmonths - 1)
+                else x (.mv .cropConsumed m)) ∧
+        (if m < i.nmonths - 1 then x (.mv .cropStorage m) + cum δ m else x (.mv .cropStorage m)) = 0
+       else
+        (if m < i.nmonths - 1 then x (.mv .cropStorage m) + cum δ m else x (.mv .cropStorage m)) =
+          at' prod' m +
+            (if m - 1 < i.nmonths - 1 then x (.mv .cropStorage (m - 1)) + cum δ (m - 1)
+              else x (.mv .cropStorage (m - 1)))
+            - (if m = i.nmonths - 1 then x (.mv .cropConsumed m) + cum δ (i.nmonths - 1)
+                else x (.mv .cropConsumed m)))
+    have hprod : at' prod' m = at' i.cropProd m + δ m := by
+      show _ = _ + (at' prod' m - at' i.cropProd m); ring
+    by_cases hm0 : m = 0
+    · have h1 : ¬ m = i.nmonths - 1 := by omega
+      have h2 : m < i.nmonths - 1 := by omega
+      simp only [hm0, if_true] at H2
+      simp only [h1, if_false, h2, if_true]
+      refine ⟨H1, ?_⟩
+      simp only [hm0, if_true]
+      rw [hm0] at hprod
+      rw [H2, hprod, cum_zero]; ring
+    · by_cases hml : m = i.nmonths - 1
+      · have h3 : m - 1 < i.nmonths - 1 := by omega
+        subst hml
+        simp only [hm0, if_false, if_true] at H2
+        simp only [hm0, if_false, if_true, lt_irrefl, h3]
+        refine ⟨?_, ?_, H2.2⟩
+        · rw [grossUp_add_keep hw, H1]; ring
+        · have hc : cum δ (i.nmonths - 1) = cum δ (i.nmonths - 1 - 1) + δ (i.nmonths - 1) := by
+            obtain ⟨n, hn⟩ : ∃ n, i.nmonths - 1 = n + 1 := ⟨i.nmonths - 1 - 1, by omega⟩
+            rw [hn, cum_succ, Nat.add_sub_cancel]
+          rw [H2.1, hprod, hc]; ring
+      · have h2 : m < i.nmonths - 1 := by omega
+        have h3 : m - 1 < i.nmonths - 1 := by omega
+        simp only [hm0, hml, if_false] at H2
+        simp only [hm0, hml, if_false, h2, h3, if_true]
+        refine ⟨H1, ?_⟩
+        have hc : cum δ m = cum δ (m - 1) + δ m := by
+          obtain ⟨n, rfl⟩ : ∃ n, m = n + 1 := ⟨m - 1, by omega⟩
+          rw [cum_succ, Nat.add_sub_cancel]
+        rw [H2, hprod, hc]; ring
+  · -- feed, biofuel, percent fed, intake caps
+    intro m hm
+    obtain ⟨H1, H2, H3, H4, H5⟩ := h.general m hm
+    refine ⟨H1, ?_, ?_, ?_, ?_⟩
+    · show (if m = i.nmonths - 1 then x (.mv .consumedKcals m) + g else x (.mv .consumedKcals m)) =
+        (X x i.addStored .sfHumans m
+          + (if i.addOutdoor = true then
+              (if m = i.nmonths - 1 then x (.mv .cropHumans m) + e else x (.mv .cropHumans m)) else 0)
+          + X x i.addSeaweed .swHumans m * i.seaweedKcals + at' i.milk m + X x i.addMeat .meatEaten m
+          + X x i.addCs .csHumans m + X x i.addScp .scpHumans m + at' i.greenhouse m + at' i.fish m)
+          / i.billionKcalsNeeded * 100.0
+      have hX : X x i.addOutdoor .cropHumans m = x (.mv .cropHumans m) := by
+        unfold X; rw [hon]; rfl
+      rw [H2, hon, sci_100]
+      unfold humanTotal
+      rw [hX]
+      simp only [if_true]
+      by_cases hl : m = i.nmonths - 1
+      · subst hl
+        simp only [if_true]
+        show _ + e / i.billionKcalsNeeded * 100 = _
+        ring
+      · simp only [hl, if_false]
     · exact intake_of_consumed_le H3 rfl rfl rfl rfl rfl rfl rfl rfl (hcons m) hlim.1 hb
     · exact intake_of_consumed_le H4 rfl rfl rfl rfl rfl rfl rfl rfl (hcons m) hlim.2.1 hb
     · exact intake_of_consumed_le H5 rfl rfl rfl rfl rfl rfl rfl rfl (hcons m) hlim.2.2 hb
